@@ -1,5 +1,6 @@
 //! Shared code of the verification harnesses (see /verif/DESIGN.md section 4).
 pub mod chain;
+pub mod conc;
 pub mod simnode;
 pub mod tower;
 pub mod trace;
